@@ -585,6 +585,23 @@ fn c04_cands(rng: &mut Rng, _pre: &Snap, _t: Tier) -> Vec<Cand> {
         let s: String = (0..n).map(|_| if rng.below(3) == 0 { *rng.pick(&DRAW_POOL) } else { (b'a' + rng.below(26) as u8) as char }).collect();
         draw_both(&mut v, s);
     }
+    // the pending-wrap column carried to ANOTHER row by a vertical move (the row may never have
+    // been written), with insert mode on or off, then a draw that wraps from there
+    for _ in 0..3 {
+        let (pc, pl) = (_pre.columns, _pre.lines);
+        let mut ops = vec![Op::Api(Call::CursorPosition(Some(rng.range(1, pl)), Some(pc))), Op::Api(Call::Draw("w".into()))];
+        let n = Some(rng.range(1, pl));
+        ops.push(Op::Api(if rng.bool() { Call::CursorUp(n) } else { Call::CursorDown(n) }));
+        if rng.bool() {
+            ops.push(Op::Api(Call::SetMode(vec![4], false)));
+        }
+        if rng.below(4) == 0 {
+            ops.push(Op::Api(Call::SetMode(vec![7], true)));
+        }
+        ops.push(Op::Api(Call::Draw(format!("{}", rng.pick(&DRAW_POOL)))));
+        ops.push(Op::Api(Call::Draw("xy".into())));
+        v.push(Cand { ops });
+    }
     // what only the API can pass in one call (see gen::mixed_api_string): composable pairs and
     // jamo next to each other with a combining mark elsewhere, controls, sequences
     for _ in 0..4 {
